@@ -62,10 +62,15 @@ type transferFn func(in ssa.Instruction, ev uint64, deferred bool) []uint64
 // tests a value the rule understands). Return false to drop the tuple.
 type edgeFilterFn func(pred, succ *ssa.BasicBlock, ev uint64) bool
 
+// edgeTransferFn lets a rule record that a CFG edge was taken (e.g. the
+// true edge of a guard it recognises). succIdx is the index in pred.Succs.
+type edgeTransferFn func(pred *ssa.BasicBlock, succIdx int, ev uint64) uint64
+
 type pathAnalysis struct {
 	fn        *ssa.Function
 	transfer  transferFn
 	edge      edgeFilterFn
+	edgeTr    edgeTransferFn
 	tracked   []*ssa.Phi
 	trackIdx  map[ssa.Value]int
 	deferIdx  map[*ssa.Defer]int
@@ -272,6 +277,9 @@ func (pa *pathAnalysis) flow(pred, succ *ssa.BasicBlock, succIdx int, t tuple) (
 	}
 	if pa.edge != nil && !pa.edge(pred, succ, t.ev) {
 		return t, false
+	}
+	if pa.edgeTr != nil {
+		t.ev = pa.edgeTr(pred, succIdx, t.ev)
 	}
 	// phis of succ (parallel assignment)
 	predIdx := -1
